@@ -40,7 +40,7 @@ def bounds(tier, seed):
     return {"short_strings": {"standalone": 4 if tier == "quick" else 5,
                               "after_stem": 3 if tier == "quick" else 4},
             "slot_filler_deviations": 1 if tier == "quick" else 2,
-            "run_lengths": [1, 10, 100, 1000, 3000]}
+            "run_lengths": [1, 10, 100, 1000, 3000, 5000]}
 
 
 def feature_subsets():
@@ -143,7 +143,7 @@ class LongRuns(Part):
         self.tier, self.seed = tier, seed
 
     def cases(self):
-        chars = ["'", '"', "\\'", '\\"', "[", "{", "]", "}", ";", ",", " ", "(", ":", ".", "$"]
+        chars = ["'", '"', "\\'", '\\"', "[", "{", "]", "}", ";", ",", " ", "(", ":", ".", "$", "0", "1", "f", "٣"]
         return [{"ch": c} for c in chars]
 
     def run(self, case):
@@ -153,9 +153,13 @@ class LongRuns(Part):
             return res
         lines = []
         for n in bounds(self.tier, self.seed)["run_lengths"]:
+            if n > 3000 and case["ch"] not in ("0", "1", "٣", "f") and self.tier == "quick":
+                continue   # the line patterns scan such lines in quadratic time; kept for thorough
             r = case["ch"] * n
             lines += [r, "password " + r, "password " + r + "X" + r, r + "password X" + r,
-                      "snmp-server community " + r + " ro", "1.2.3.4" + r, r + "::1"]
+                      "snmp-server community " + r + " ro", "1.2.3.4" + r, r + "::1",
+                      "ip address " + r + "11.22.33.44", "ip address 11." + r + "22.33.44", "ip address 11.22.33." + r + "4",
+                      "peer " + r + ":" + r + "::1", "router bgp " + r + "65001", "key 7 " + r + "8AB"]
         for ln in lines:
             judge(res, [ln], "saltForTest", FEATURES_ALL, {"ch": case["ch"]},
                   "run-of-%r-len-%s" % (case["ch"], "short" if len(ln) < 1500 else "long"))
